@@ -16,6 +16,7 @@ RULE = ('cases = (a) every potential definition of the documented grammar with n
         'variants (":" / "=", blanks and tabs, whitespace inside keys, continuation lines, comment lines, section order, entry order incl. a '
         'custom form defined after its caller); oracle: reference evaluator of the documented semantics at 9 separations (rel 1e-12), all '
         'variants bit-identical, equality with the Python-API composition where one exists; non-trivial = definition with >= 1 modifier / body with >= 1 operator')
+RULE += "; (d) names differing only in case (forms, parameters, tables, built-ins): documented meaning or refusal; (e) every pymath function x 6..24 argument expressions of either sign against Python's math; (f) formulas of magnitude 1e-300..1e200; (g) every custom-formula entry of the shared library evaluated three times over; further formatting variants: number spellings, values on the line after the key, blanks inside section brackets"
 ASSUMPTIONS = [
     'pow() with three arguments and a^b^c are undocumented and outside the alphabet; operator precedence is judged only on the fixed probes',
     'every unmarked definition (also nested in a modifier) acts for r > 0 only (documented default range)',
